@@ -30,6 +30,7 @@ func TestVerifReplay(t *testing.T) {
 		"VerifC18Thorough":         VerifC18Thorough,
 		"VerifC18Reorg":            VerifC18Reorg,
 		"VerifC03Quick":            VerifC03Quick,
+		"VerifC03ReaderUndone":     VerifC03ReaderUndone,
 		"VerifC03Thorough":         VerifC03Thorough,
 		"VerifC02TxQuick":          VerifC02TxQuick,
 		"VerifC02TxThorough":       VerifC02TxThorough,
